@@ -138,8 +138,8 @@ SPECS['C04'] = dict(
 
 SPECS['C12'] = dict(
     jobs=hist_jobs, level='exploration', technique='model-based testing against an abstract list: exhaustive short op sequences per container kind/capacity, growth runs with realloc counting, seeded histories',
-    rule='SEQ: arrays: every sequence of up to 5 (thorough 6) calls over {push, set(i), replace(i), get(i)}, i in {0, size-1, size, size+1, size+2}, for definite capacities 0..8 and the indefinite array, plus fill-then-probe runs; maps and chunked strings: every insertion count 0..capacity+12. After every call: return value, size, allocated >= size, fixed capacity of definite containers and element identity through the handle equal the abstract list; out-of-range get is NULL, out-of-range set/replace false. GROW: 1..4096 (thorough 65537) insertions into each indefinite kind, each growth step first attempted with the next allocator request refused and with every request refused (a refused insertion must leave size, handle and elements unchanged; a fallback that succeeds counts as an insertion), contents checked at checkpoints, reallocation calls <= 4 + 2*ceil(log2(n+1)), capacity never shrinks. HISTR: seeded histories with the same predictions on many containers at once. Non-trivial = the sequence hits a boundary (full definite container, index >= size) or causes >=2 growths.',
-    assumptions=HIST_ASSUME[:2] + ['the logarithmic bound is deliberately loose (doubling needs 1+ceil(log2 n) reallocations); a linear growth policy needs n/k and is caught for n >= 64'],
+    rule='SEQ: arrays: every sequence of up to 5 (thorough 6) calls over {push, set(i), replace(i), get(i)}, i in {0, size-1, size, size+1, size+2}, for definite capacities 0..8 and the indefinite array, plus fill-then-probe runs; maps and chunked strings: every insertion count 0..capacity+12. After every call: return value, size, allocated >= size, fixed capacity of definite containers and element identity through the handle equal the abstract list; out-of-range get is NULL, out-of-range set/replace false. GROW: 1..4096 (thorough 65537) insertions into each indefinite kind, each growth step first attempted with the next allocator request refused and with every request refused (a refused insertion must leave size, handle and elements unchanged; a fallback that succeeds counts as an insertion), contents checked at checkpoints, allocator requests made inside the insertion calls (growth steps, by realloc or by allocate-copy-release) <= 8 + 4*ceil(log2(n+1)), capacity never shrinks. HISTR: seeded histories with the same predictions on many containers at once. Non-trivial = the sequence hits a boundary (full definite container, index >= size) or causes >=2 growths.',
+    assumptions=HIST_ASSUME[:2] + ['the logarithmic bound is deliberately loose (doubling needs 1+ceil(log2 n) growth steps, factor 1.5 about 1.7*log2 n); a linear growth policy needs n/k steps and is caught for n >= 1000 at k = 16'],
     level_text='Exploration with a list model: exhaustive for short sequences per container configuration; growth clause checked at 29 (33) sizes per kind.',
     level_note='Index classes stand for indices (first, last, size, size+1, size+2); capacities above 8 are only covered by growth runs and seeded histories.')
 
